@@ -24,7 +24,10 @@ theorem digest_roundtrip (b : Block) (d f : Nat) (tl : Stream) (hwf : b.wf = tru
     up to the next `\item` of the same list (nested lists stay inside the item that contains them:
     they are part of `body.nodes`), with its term — whatever blanks (spaces, blank lines / `\par`)
     stand between `\begin{..}` and the first `\item` or after an `\item`: the list's children are
-    the items themselves. -/
+    the items themselves.  An item may end in a bare declaration (`Items.consD`: `\item a \bfseries x`, an
+    environment token without end): it then holds its body and the declaration node, the declaration holds
+    exactly what follows it in that item (again any blocks, with nested lists), and the next `\item` — or the
+    end of the list — is not swallowed. -/
 theorem items_roundtrip (d ty : Nat) (nsp : List Bool) (is : Items) (tl : Stream) (f : Nat) (hwf : is.wf = true)
     (hf : (Block.list ty nsp is).cost ≤ f) :
     digestNode f (mkT (d + 1) (.begin_ .list ty))
@@ -37,19 +40,41 @@ theorem items_roundtrip (d ty : Nat) (nsp : List Bool) (is : Items) (tl : Stream
 theorem items_one_per_item (d : Nat) (is : Items) :
     (is.nodes d).length = is.length ∧
     (is.nodes d).map (fun n => n.kind) = is.terms.map Kind.item ∧
-    (is.nodes d).map Node.ch = is.bodies.map (·.nodes d) :=
+    (is.nodes d).map Node.ch = is.children d :=
   items_shape is d
 
-/-- Known finding (outside the Spec grammar): a bare declaration in an item body,
-    `\begin{itemize}\item \bfseries x \item y\end{itemize}`, swallows the following item — the list
-    node ends up with ONE item child whose declaration node holds the second `\item` (kernel-checked on
-    the token stream recorded from the real run).  `items_roundtrip` does not cover it because a
-    declaration is an environment token without its end token, which `Block.render` never produces. -/
-theorem item_decl_asIs_counterexample :
+/-- An item whose body ends in a bare declaration (`\item a \bfseries x \item y`, a declaration being an
+    environment token without end token) still holds exactly its own body and the declaration node; the
+    declaration holds exactly what follows it in that item (any well-formed blocks), and the next `\item` stays
+    on the stream for the list: the next item is NOT swallowed (former known finding
+    `item-absorbed-by-declaration`, repaired by the `container` test of `Environment.digest`). -/
+theorem item_keeps_trailing_declaration (d t t' ty : Nat) (body bs : Blocks) (rest : Stream)
+    (hb1 : body.startsNonWs = true) (hb2 : body.wf = true) (hwf : bs.wf = true) (f : Nat)
+    (hf : body.cost + bs.cost + 6 ≤ f) :
+    digestNode f (mkT d (.item t))
+        (body.render d ++ mkT (d + 1) (.begin_ .env ty) :: (bs.render (d + 1) ++ mkT d (.item t') :: rest))
+      = some (.mk ⟨d, .item t⟩ (body.nodes d ++ [.mk ⟨d + 1, .begin_ .env ty⟩ (bs.nodes (d + 1))]), mkT d (.item t') :: rest) :=
+  item_decl_digest d t t' ty body bs rest hb1 hb2 hwf f hf
+
+/-- A declaration (or any non-list environment) stops at an `\item` whatever its context depth, and leaves it
+    on the stream. -/
+theorem declaration_stops_at_item (dd ty t ds : Nat) (bs : Blocks) (rest : Stream) (hwf : bs.wf = true)
+    (f : Nat) (hf : bs.cost + 2 ≤ f) :
+    digestNode f (mkT dd (.begin_ .env ty)) (bs.render dd ++ mkT ds (.item t) :: rest)
+      = some (.mk ⟨dd, .begin_ .env ty⟩ (bs.nodes dd), mkT ds (.item t) :: rest) :=
+  decl_digest_item dd ty t ds bs rest hwf f hf
+
+/-- non-vacuity, on the token stream recorded from `\begin{itemize}\item \bfseries x \item y\end{itemize}`: the list
+    has TWO items, the first holding the declaration node with `x`, the second holding `y` -/
+example :
     (parse [mkT 3 (.begin_ .list 1), mkT 3 (.item 0), mkT 4 (.begin_ .env 5), mkT 4 (.text 120), mkT 4 .space,
             mkT 4 (.item 0), mkT 4 (.text 121), mkT 2 (.end_ .list 1)]).map
-      (fun ns => ns.map fun n => (n.ch.length, n.ch.map fun i => i.ch.map fun d => d.ch.length)) = some [(1, [[3]])] := by
+      (fun ns => ns.map fun n => (n.ch.length, n.ch.map fun i => i.ch.map fun d => d.ch.length)) = some [(2, [[2], [0]])] := by
   decide
+
+example : digestNode 14 (mkT 3 (.item 0)) [mkT 3 (.text 97), mkT 4 (.begin_ .env 5), mkT 4 (.text 120), mkT 3 (.item 0), mkT 3 (.text 121)]
+    = some (.mk ⟨3, .item 0⟩ [mkT 3 (.text 97), .mk ⟨4, .begin_ .env 5⟩ [mkT 4 (.text 120)]], [mkT 3 (.item 0), mkT 3 (.text 121)]) :=
+  item_keeps_trailing_declaration 3 0 0 5 (.cons (.leaf (.text 97)) .nil) (.cons (.leaf (.text 120)) .nil) _ (by decide) (by decide) (by decide) 14 (by decide)
 
 /-- non-vacuity: a description whose first `\item[T]` follows a space and a blank line, holding `a {b}` and an
     itemize whose first `\item` follows a blank line, then an empty `\item` -/
@@ -62,6 +87,17 @@ example :
       = some (.mk ⟨3, .begin_ .list 2⟩ (is.nodes 3), [mkT 2 (.text 1)]) := by
   refine ⟨by decide, ?_⟩
   exact items_roundtrip 2 2 [false, true] _ _ 40 (by decide) (by decide)
+
+/-- non-vacuity with declarations: `\begin{itemize}\item a \bfseries x \begin{enumerate}\item \itshape y\end{enumerate} \item b\end{itemize}` -/
+example :
+    let inner := Block.list 2 [] (.consD 0 [] .nil 6 (.cons (.leaf (.text 121)) .nil) .nil)
+    let is := Items.consD 0 [] (.cons (.leaf (.text 97)) .nil) 5 (.cons (.leaf (.text 120)) (.cons inner .nil))
+      (.cons 0 [] (.cons (.leaf (.text 98)) .nil) .nil)
+    is.wf = true ∧ (is.nodes 3).length = 2 ∧
+    digestNode 60 (mkT 3 (.begin_ .list 1)) (blanks 3 [] ++ (is.render 3 ++ [mkT 2 (.end_ .list 1)]))
+      = some (.mk ⟨3, .begin_ .list 1⟩ (is.nodes 3), []) := by
+  refine ⟨by decide, by decide, ?_⟩
+  exact items_roundtrip 2 1 [] _ _ 60 (by decide) (by decide)
 
 /-- A tabular/array is digested into one row node per written row and one cell node per written
     cell, in order, each cell holding what stands between the separators (nested tables, lists,
@@ -140,6 +176,32 @@ example :
     let rows := [[cell [mkT 4 (.text 97)]], [cell [mkT 4 .hline]], [cell [mkT 4 (.text 98)]], [cell [mkT 4 .space, mkT 4 .hline]]]
     ((specTable [] rows).map fun r => r.map fun c => (c.marks.top, c.marks.bottom)) = [[(false, true)], [(false, true)]] ∧
     ((specTable [] (rows.take 3)).map fun r => r.map fun c => (c.marks.top, c.marks.bottom)) = [[(false, true)], [(false, false)]] := by
+  decide
+
+/-- From tokens to finished rows, for EVERY written table (any nesting inside the cells, any placement of rule
+    commands, any column styles): digesting the table's token stream and running `Array.applyBorders` on the result
+    gives exactly `specTable` of the rows as written (`writtenRows`: one record per written cell, in order, with the
+    span / own specification of its `\multicolumn` and its content) — rule-only rows gone, every rule on the
+    adjacent content row, nothing after the table touched. -/
+theorem table_pipeline (spec : List ColStyle) (d ty : Nat) (c : Blocks) (cs : Cells) (rs : Rows) (tl : Stream) (f : Nat)
+    (hwf : c.wf = true ∧ cs.wf = true ∧ rs.wf = true) (hf : (Block.table ty c cs rs).cost ≤ f) :
+    (digestNode f (mkT (d + 2) (.begin_ .array ty))
+        (mkT (d + 2) .row :: mkT (d + 2) .cell ::
+          (c.render (d + 2) ++ (cs.render (d + 2) ++ (rs.render (d + 2) ++ mkT d (.end_ .array ty) :: tl))))).map
+      (fun p => (applyBordersTable spec (rowsOf p.1), p.2))
+      = some (specTable spec (writtenRows (d + 2) c cs rs), tl) := by
+  rw [table_roundtrip d ty c cs rs tl f hwf hf]
+  have h := rowsOf_table d ty c cs rs
+  simp only [Block.node] at h
+  simp only [Option.map_some, h, table_rules_adjacent]
+
+/-- non-vacuity: `a & \multicolumn{1}{c|}{b} \\ \hline` -/
+example :
+    let c := Blocks.cons (.leaf (.text 97)) .nil
+    let cs := Cells.cons (.cons (.leaf (.mcol 1 ⟨2, false, true⟩ 98)) .nil) .nil
+    let rs := Rows.cons (.cons (.leaf .hline) .nil) .nil .nil
+    ((specTable [⟨1, false, false⟩, ⟨1, false, false⟩] (writtenRows 4 c cs rs)).map fun r =>
+      r.map fun x => (x.span, x.marks.bottom, x.style.align, x.style.br)) = [[(1, true, 1, false), (1, true, 2, true)]] := by
   decide
 
 /-- Formatting set in one cell does not leak into the next: a declaration (`\bfseries`, an
